@@ -12,7 +12,7 @@ META = dict(
     bounds="value kind: symbolic selector over 12 kinds (None bool int float complex str bytes bytearray list tuple dict "
            "non-dict Mapping); content symbolic (int unbounded, float all values incl. nan/inf, str len<=2) or, for containers, "
            "content that is valid for the target so that acceptance depends on the kind alone",
-    configs="24 target kinds x 10 embedding contexts (top, list element, tuple slot, struct value, mapping value, union member, "
+    configs="25 target kinds x 11 embedding contexts (top, list element, tuple slot, struct value, mapping value, mapping value under an Any key, union member, "
             "Optional, dataclass field by name, dataclass field by position, Annotated) = the matrix of the property; quick runs "
             "the cells at top level / as dataclass fields and all scalar targets, thorough all of them",
     stubs=[],
